@@ -5,13 +5,20 @@ use crate::{
 
 pub fn can_be_used<T, S>(lhs: Type, rhs: Type, can_be_used: T, return_type: S) -> bool
 where
-    T: FnOnce(&Type, &Type) -> bool,
-    S: FnOnce(&Type, &Type) -> Type,
+    T: Fn(&Type, &Type) -> bool,
+    S: Fn(&Type, &Type) -> Type,
 {
-    let Some(var_type) = lhs.mut_element_type() else {
-        return false;
+    // a union of cell types stands for any one of those cells: the stored value must fit each of them
+    let fits = |cell: &Type| {
+        let Some(var_type) = cell.mut_element_type() else {
+            return false;
+        };
+        can_be_used(&var_type, &rhs) && return_type(&var_type, &rhs).matches(&var_type)
     };
-    can_be_used(&var_type, &rhs) && return_type(&var_type, &rhs).matches(&var_type)
+    match &lhs {
+        Type::Multi(multi) => multi.iter().all(fits),
+        cell => fits(cell),
+    }
 }
 
 pub fn exec<T: FnOnce(Variable, Variable) -> Variable>(
